@@ -180,6 +180,28 @@ lay_impl!(FixedU32, LeEqU32, u32, u32, 4, false, "FixedU32");
 lay_impl!(FixedU64, LeEqU64, u64, u64, 8, false, "FixedU64");
 lay_impl!(FixedU128, LeEqU128, u128, u128, 16, false, "FixedU128");
 
+// ------------------------------------------------------------------ user-defined containers (derive paths)
+
+/// What a pallet's storage struct looks like: the fixed-point value between foreign fields.
+#[derive(Encode, Decode, MaxEncodedLen, scale_info::TypeInfo, Clone, PartialEq, Debug)]
+pub struct Rec<T> {
+    pub tag: u8,
+    pub val: T,
+    pub opt: Option<T>,
+    pub tail: u16,
+}
+
+/// A derived enum with explicit indices.
+#[derive(Encode, Decode, MaxEncodedLen, scale_info::TypeInfo, Clone, PartialEq, Debug)]
+pub enum Sum<T> {
+    #[codec(index = 0)]
+    Empty,
+    #[codec(index = 3)]
+    One(T),
+    #[codec(index = 7)]
+    Two { a: T, b: T },
+}
+
 // ------------------------------------------------------------------ codec-generic paths
 
 pub const KEY_PREFIX: [u8; 3] = [0xAA, 0x55, 0xC3];
@@ -259,6 +281,18 @@ pub fn enc_codec<E: Elem>(vals: &[u128], splits: &[u8], shape: Shape, writer: Wr
             need(1)?;
             put(&Box::new(E::fb(vals[0])), writer, out)
         }
+        Shape::Rec => {
+            if vals.is_empty() || vals.len() > 2 {
+                return Err("shape Rec needs 1 or 2 values".into());
+            }
+            put(&Rec { tag: tup_head(vals[0]), val: E::fb(vals[0]), opt: vals.get(1).map(|b| E::fb(*b)), tail: tup_tail(vals[0]) }, writer, out)
+        }
+        Shape::Sum => match vals.len() {
+            0 => put(&Sum::<E>::Empty, writer, out),
+            1 => put(&Sum::One(E::fb(vals[0])), writer, out),
+            2 => put(&Sum::Two { a: E::fb(vals[0]), b: E::fb(vals[1]) }, writer, out),
+            _ => Err("shape Sum needs 0..=2 values".into()),
+        },
         Shape::Append => {
             // the stored bytes are extended in place, never decoded (StorageAppend pattern)
             let items = mk::<E>(vals);
@@ -332,6 +366,18 @@ pub fn dec_codec<E: Elem>(shape: Shape, reader: Reader, inp: &mut SimInput) -> R
             None => None,
         },
         Shape::Boxed => get::<Box<E>>(reader, inp)?.map(|v| vec![v.tb()]),
+        Shape::Rec => get::<Rec<E>>(reader, inp)?.map(|r| {
+            let mut v = vec![r.val.tb()];
+            v.extend(r.opt.iter().map(|o| o.tb()));
+            v.push(r.tag as u128);
+            v.push(r.tail as u128);
+            v
+        }),
+        Shape::Sum => get::<Sum<E>>(reader, inp)?.map(|s| match s {
+            Sum::Empty => vec![],
+            Sum::One(a) => vec![a.tb()],
+            Sum::Two { a, b } => vec![a.tb(), b.tb()],
+        }),
     })
 }
 
@@ -344,6 +390,8 @@ pub fn mel_codec<E: Elem>(shape: Shape) -> Option<usize> {
         Shape::Pair => Some(<(E, E)>::max_encoded_len()),
         Shape::Tup3 => Some(<(u8, E, u16)>::max_encoded_len()),
         Shape::Boxed => Some(Box::<E>::max_encoded_len()),
+        Shape::Rec => Some(Rec::<E>::max_encoded_len()),
+        Shape::Sum => Some(Sum::<E>::max_encoded_len()),
         Shape::Vec | Shape::Append => None,
     }
 }
